@@ -429,6 +429,17 @@ HEADER_VALUES = {
                      'application/JSON', 'application/json , text/plain', '\xe9/\xe9', 'application/' + 'j' * 5000],
     'accept': ['application/json;q=' + '9' * 4301, 'application/json;q=\xb2', 'application/*;q=0.0', '*/*;q=x', ',,,', 'a' * 5000, '\xb2/\xb2',
                'application/json; version=' + '9' * 5000],
+    # identity headers of a token that is not project-scoped, odd role lists (the refusal must be a well-formed 403 / the answer
+    # must not depend on them beyond what the policy says)
+    'openstack-system-scope': ['all', 'x', ''],
+    'x-domain-id': ['d1', ''],
+    'x-project-id': ['', 'p' * 300, '\xe9'],
+    'x-user-id': ['', 'u' * 300],
+    'x-roles': ['', ',', 'admin,,service', 'ADMIN', 'reader', 'member,reader', ' admin', 'admin ' * 50],
+    'x-project-domain-id': ['default', ''],
+    'x-is-admin-project': ['True', 'false', 'x'],
+    'x-service-roles': ['service', ''],
+    'x-identity-status': ['Confirmed', 'Invalid', ''],
     'openstack-api-version': ['placement 1.' + '9' * 4301, 'placement ' + '9' * 4301 + '.1', 'placement \xb2.\xb3', 'placement 1.\xb2',
                               'placement 1.39 ', ' placement 1.39', 'placement  1.39', 'PLACEMENT 1.39', 'placement 1.039', 'placement 1.3_9',
                               'placement +1.39', 'placement 1.39,placement 1.0', 'placement latest ', 'placement\t1.39'],
